@@ -28,6 +28,10 @@ type TStream struct {
 	RBuf   int64 `json:"rbuf"`           // read buffer pattern
 	AtMS   int64 `json:"at,omitempty"`   // start offset after the handshake
 	RLagMS int64 `json:"rlag,omitempty"` // the accepting application starts reading this long after it accepted the stream
+	// (unidirectional streams) the writer gives up after this many bytes: CancelWrite - after SetReliableBoundary when
+	// Reliable is set, so that with RESET_STREAM_AT negotiated the reader still gets every byte written so far
+	AbortAt  int  `json:"abort_at,omitempty"`
+	Reliable bool `json:"reliable,omitempty"`
 }
 
 type TDgram struct {
@@ -228,6 +232,30 @@ func genTransfer(seed uint64, tier string) KScenario {
 	} else if !sc.ForeignPeer && r.P(0.3) {
 		sc.LateRebind = true
 	}
+	if r.P(0.2) {
+		// some writers give up in mid-stream; with flow-control windows at their defaults and little data overall, so that
+		// the reset never meets the known RESET_STREAM_AT final-size family (K:sendstream, section 9.3)
+		var total int
+		for _, st := range sc.Streams {
+			total += st.Size + st.Back
+		}
+		if sc.Cfg.Win == [4]uint64{} && total < 400000 {
+			sc.Cfg.ResetPartial = [2]bool{r.P(0.8), r.P(0.8)}
+			for i := range sc.Streams {
+				if st := &sc.Streams[i]; st.Uni && st.Size > 0 && r.P(0.6) {
+					st.AbortAt = min(st.Size, r.Pick(1, 100, 1200, 5000, st.Size))
+					st.Reliable = r.P(0.7)
+				}
+			}
+		}
+	}
+	if sc.Cfg.MaxStreams == [2]int64{} && r.P(0.06) {
+		// the largest stream counts there are: 2^60 is the largest legal value of the transport parameters, larger Config
+		// values are clamped to it
+		big := []int64{1 << 60, 1<<60 - 1, 1 << 62}
+		sc.Cfg.MaxStreams = [2]int64{big[r.N(3)], big[r.N(3)]}
+		sc.Cfg.MaxUniStreams = [2]int64{big[r.N(3)], big[r.N(3)]}
+	}
 	// the other path may carry less than the first one: whoever moves a connection starts path MTU discovery afresh
 	if sc.Net.RebindAtOrd > 0 && r.P(0.5) {
 		sc.Net.AltMTU = r.Pick(1300, 1350, 1400)
@@ -313,6 +341,9 @@ type tStreamState struct {
 	rErr    [2]error
 	rGot    [2]int
 	id      int64
+	// the writer of payload 0 resets the stream after abortAt bytes; reliable: the reader is owed all of them first
+	abortAt  int
+	reliable bool
 }
 
 func chunkSize(pattern int64, k int) int {
@@ -347,6 +378,28 @@ func (st *tStreamState) write(res *KResult, s io.WriteCloser, key uint64, size i
 	}
 }
 
+const tAbortCode = quic.StreamErrorCode(0x77)
+
+// writeAndAbort: the writer of a unidirectional stream writes n bytes and gives up.
+func (st *tStreamState) writeAndAbort(res *KResult, s *quic.SendStream, key uint64, n int, pattern int64, reliable bool) {
+	off := 0
+	for k := 0; off < n; k++ {
+		c := min(chunkSize(pattern, k), n-off)
+		m, err := s.Write(wPayload(key, off, c))
+		off += m
+		if err != nil {
+			st.mu.Lock()
+			st.wErr[0] = err
+			st.mu.Unlock()
+			return
+		}
+	}
+	if reliable {
+		s.SetReliableBoundary()
+	}
+	s.CancelWrite(tAbortCode)
+}
+
 func (st *tStreamState) read(res *KResult, s io.Reader, key uint64, size int, pattern int64, which int, what string) {
 	off := 0
 	for k := 0; ; k++ {
@@ -370,7 +423,9 @@ func (st *tStreamState) read(res *KResult, s io.Reader, key uint64, size int, pa
 			st.mu.Lock()
 			closed := st.wClosed[which]
 			st.mu.Unlock()
-			if off != size {
+			if st.abortAt > 0 && which == 0 {
+				res.Fail("end of stream on a stream its writer reset", "%s: EOF at %d (reset after %d)", what, off, st.abortAt)
+			} else if off != size {
 				res.Fail("end of stream before all written bytes were delivered", "%s: EOF at %d of %d", what, off, size)
 			} else if !closed {
 				res.Fail("end of stream seen before the writer closed the stream", "%s", what)
@@ -381,6 +436,22 @@ func (st *tStreamState) read(res *KResult, s io.Reader, key uint64, size int, pa
 			return
 		}
 		if err != nil {
+			var se *quic.StreamError
+			if st.abortAt > 0 && which == 0 && errors.As(err, &se) {
+				switch {
+				case !se.Remote || se.ErrorCode != tAbortCode:
+					res.Fail("reader of a stream its writer reset got another stream error than the writer's", "%s: %v", what, err)
+				case off > st.abortAt:
+					res.Fail("stream delivered more bytes than were written", "%s: got %d, written %d before the reset", what, off, st.abortAt)
+				case st.reliable && off != st.abortAt:
+					res.Fail("RESET_STREAM_AT: the reset was reported before every byte up to the reliable size had been delivered", "%s: %d of %d bytes, then %v", what, off, st.abortAt, err)
+				default:
+					res.Probe("stream-reset-by-its-writer")
+					if st.reliable {
+						res.Probe("stream-reset-after-reliable-delivery")
+					}
+				}
+			}
 			st.mu.Lock()
 			st.rErr[which] = err
 			st.mu.Unlock()
@@ -468,6 +539,11 @@ func runTransfer(t *testing.T, ksc KScenario, res *KResult) {
 	states := make([]*tStreamState, len(sc.Streams))
 	for i := range states {
 		states[i] = &tStreamState{id: -1}
+		if sp := sc.Streams[i]; sp.Uni && sp.AbortAt > 0 {
+			// RESET_STREAM_AT is in use when both endpoints enabled it (a spec-driven client advertises what its spec says)
+			states[i].abortAt = sp.AbortAt
+			states[i].reliable = sp.Reliable && sc.Cfg.ResetPartial == [2]bool{true, true} && (sc.Cfg.Client == "plain" || sc.Cfg.Client == "")
+		}
 	}
 	var idMu sync.Mutex
 	byID := map[[2]int64]int{} // (initiator, stream id) -> index
@@ -625,6 +701,10 @@ func runTransfer(t *testing.T, ksc KScenario, res *KResult) {
 					idMu.Lock()
 					byID[[2]int64{int64(me), int64(s.StreamID())}] = i
 					idMu.Unlock()
+					if spec.AbortAt > 0 {
+						st.writeAndAbort(res, s, key(i, 0), spec.AbortAt, spec.WChunk, spec.Reliable)
+						return
+					}
 					st.write(res, s, key(i, 0), spec.Size, spec.WChunk, 0)
 					return
 				}
